@@ -17,14 +17,26 @@ open Tx3 Tx3.Expr Assets Outcome
 inductive MExp where
   | ada (i : IExp)
   | tok (x : String) (i : IExp)
+  /-- `AnyAsset(0x<policy>, 0x<name>, i)` -/
+  | any (ph nh : String) (i : IExp)
   | add (a b : MExp)
   | sub (a b : MExp)
+
+/-- The class `AnyAsset(0x<ph>, 0x<nh>, _)` names. -/
+def anyCls (ph nh : String) : AssetClass :=
+  match hexDecode ph, hexDecode nh with
+  | some pb, some nb => .defined pb nb
+  | _, _ => .naked
+
+/-- Both are hex literals, the policy not empty. -/
+def AnyOK (ph nh : String) : Prop := ∃ pb nb, hexDecode ph = some pb ∧ hexDecode nh = some nb ∧ pb ≠ []
 
 namespace MExp
 
 def toL : MExp → LExpr
   | ada i => .node (.call "Ada") [i.toL]
   | tok x i => .node (.call x) [i.toL]
+  | any ph nh i => .node .anyAsset [.leaf (.hex ph), .leaf (.hex nh), i.toL]
   | add a b => .node .add [a.toL, b.toL]
   | sub a b => .node .sub [a.toL, b.toL]
 
@@ -32,24 +44,28 @@ def toL : MExp → LExpr
 def den (ints : String → Int) (cls : String → AssetClass) : MExp → AssetClass → Int
   | ada i, k => if k = AssetClass.naked then i.den ints else 0
   | tok x i, k => if k = cls x then i.den ints else 0
+  | any ph nh i, k => if k = anyCls ph nh then i.den ints else 0
   | add a b, k => a.den ints cls k + b.den ints cls k
   | sub a b, k => a.den ints cls k - b.den ints cls k
 
 def depth : MExp → Nat
   | ada i => i.depth + 1
   | tok _ i => i.depth + 1
+  | any _ _ i => i.depth + 1
   | add a b => max a.depth b.depth + 1
   | sub a b => max a.depth b.depth + 1
 
 def pars : MExp → List String
   | ada i => i.pars
   | tok _ i => i.pars
+  | any _ _ i => i.pars
   | add a b => a.pars ++ b.pars
   | sub a b => a.pars ++ b.pars
 
 def toks : MExp → List String
   | ada _ => []
   | tok x _ => [x]
+  | any _ _ _ => []
   | add a b => a.toks ++ b.toks
   | sub a b => a.toks ++ b.toks
 
@@ -57,6 +73,7 @@ def toks : MExp → List String
 def Fits (ints : String → Int) (cls : String → AssetClass) : MExp → Prop
   | ada i => i.Fits ints
   | tok _ i => i.Fits ints
+  | any ph nh i => i.Fits ints ∧ AnyOK ph nh
   | add a b => a.Fits ints cls ∧ b.Fits ints cls ∧ ∀ k, IExp.Small (a.den ints cls k + b.den ints cls k)
   | sub a b => a.Fits ints cls ∧ b.Fits ints cls ∧ (∀ k, IExp.Small (b.den ints cls k)) ∧
       ∀ k, IExp.Small (a.den ints cls k - b.den ints cls k)
@@ -67,13 +84,14 @@ end MExp
 def Denotes (r : Expr) (d : AssetClass → Int) : Prop :=
   isConstant r = true ∧ ∃ c, assetsVal r = some c ∧ ∀ k, amt c k = d k
 
-/-- `x` names an asset the program declares with a constant policy and name (hex literals), and
-`cls x` is the class those bytes denote. -/
+/-- `x` names an asset the program declares with a constant policy and name (hex literals), the policy not empty
+(an empty one would make the reducer read the entry as lovelace or as a bare name), and `cls x` is the class those
+bytes denote. -/
 def TokOf (s : Scope) (cls : String → AssetClass) (x : String) : Prop :=
   x ≠ "min_utxo" ∧ x ≠ "tip_slot" ∧ x ≠ "slot_to_time" ∧ x ≠ "time_to_slot" ∧ x ≠ "Ada" ∧
   ∃ ph nh pb nb, resolve s x = some (.asset (.leaf (.hex ph)) (.leaf (.hex nh))) ∧
     hexDecode ph = some pb ∧ hexDecode nh = some nb ∧
-    cls x = entryClass (.leaf (.bytes pb)) (.leaf (.bytes nb))
+    cls x = entryClass (.leaf (.bytes pb)) (.leaf (.bytes nb)) ∧ pb ≠ []
 
 theorem single_entry (p n : Expr) (hp : ∃ l, p = .leaf l) (hn : ∃ l, n = .leaf l) (v : Int) (hv : IExp.Small v) :
     Denotes (.node .assets [p, n, .leaf (.number v)]) (fun k => if k = entryClass p n then v else 0) := by
@@ -97,6 +115,10 @@ theorem single_entry (p n : Expr) (hp : ∃ l, p = .leaf l) (hn : ∃ l, n = .le
       · have : ¬ entryClass (.leaf lp) (.leaf ln) = k := fun e => hk e.symm
         simp [amt, get?, hk, this]
 
+theorem entryClass_defined {pb nb : Bytes} (h : pb ≠ []) :
+    entryClass (.leaf (.bytes pb)) (.leaf (.bytes nb)) = .defined pb nb := by
+  simp [entryClass, nameExprOf, constPolicy, constName, fromAsset, fromDefinedAsset, h]
+
 theorem entryClass_none : entryClass (.leaf .none) (.leaf .none) = AssetClass.naked := by
   simp [entryClass, nameExprOf, constPolicy, constName, fromAsset, fromNakedAmount]
 
@@ -104,7 +126,7 @@ theorem lower_multi (s : Scope) (σ : ArgMap) (ints : String → Int) (cls : Str
     (hl : ctx.lvl ≠ 0) (hA : AdaBuiltin s) :
     ∀ (e : MExp), ScopeOf s σ ints e.pars → (∀ x ∈ e.toks, TokOf s cls x) → e.Fits ints cls → ∀ k,
       ∃ t, lowerE s (e.depth + 2 + k) ctx e.toL = .ok t ∧ Inert t ∧
-        ∀ m, ∃ r, reduceF (e.depth + 2 + m) (applyArgs σ t) = .ok r ∧ Denotes r (e.den ints cls)
+        ∀ m, ∃ r, reduceF (e.depth + 2 + m) (applyArgs σ t) = .ok r ∧ Denotes r (e.den ints cls) ∧ RForm r
   | .ada i, h, _, hf, k => by
     obtain ⟨ti, hli, hri⟩ := lower_int s σ ints ctx hl i h hf (k + 1)
     have hin : Inert ti := lower_int_inert s σ ints i h _ _ _ hli
@@ -117,7 +139,7 @@ theorem lower_multi (s : Scope) (σ : ArgMap) (ints : String → Int) (cls : Str
     · intro m
       have hd := single_entry (.leaf .none) (.leaf .none) ⟨_, rfl⟩ ⟨_, rfl⟩ (i.den ints) (fits_small ints i hf)
       rw [entryClass_none] at hd
-      refine ⟨.node .assets [.leaf .none, .leaf .none, .leaf (.number (i.den ints))], ?_, hd⟩
+      refine ⟨.node .assets [.leaf .none, .leaf .none, .leaf (.number (i.den ints))], ?_, hd, RForm.ada _⟩
       rw [show (MExp.ada i).depth + 2 + m = (i.depth + 2 + m) + 1 by simp only [MExp.depth]; omega]
       have h1 := hri m
       have e2 : i.depth + 2 + m = (i.depth + 1 + m) + 1 := by omega
@@ -125,7 +147,7 @@ theorem lower_multi (s : Scope) (σ : ArgMap) (ints : String → Int) (cls : Str
       rw [e2]
       simp only [reduceF, ok_bind]
   | .tok x i, h, ht, hf, k => by
-    obtain ⟨h1x, h2x, h3x, h4x, h5x, ph, nh, pb, nb, hres, hpb, hnb, hcls⟩ := ht x (by simp [MExp.toks])
+    obtain ⟨h1x, h2x, h3x, h4x, h5x, ph, nh, pb, nb, hres, hpb, hnb, hcls, hpne⟩ := ht x (by simp [MExp.toks])
     obtain ⟨ti, hli, hri⟩ := lower_int s σ ints ctx hl i h hf (k + 1)
     have hin : Inert ti := lower_int_inert s σ ints i h _ _ _ hli
     refine ⟨.node .assets [.leaf (.bytes pb), .leaf (.bytes nb), ti], ?_, Inert_assets3 (Inert_leaf _) (Inert_leaf _) hin, ?_⟩
@@ -140,8 +162,33 @@ theorem lower_multi (s : Scope) (σ : ArgMap) (ints : String → Int) (cls : Str
     · intro m
       have hd := single_entry (.leaf (.bytes pb)) (.leaf (.bytes nb)) ⟨_, rfl⟩ ⟨_, rfl⟩ (i.den ints) (fits_small ints i hf)
       rw [← hcls] at hd
-      refine ⟨.node .assets [.leaf (.bytes pb), .leaf (.bytes nb), .leaf (.number (i.den ints))], ?_, hd⟩
+      refine ⟨.node .assets [.leaf (.bytes pb), .leaf (.bytes nb), .leaf (.number (i.den ints))], ?_, hd, RForm.tok _ _ _ hpne⟩
       rw [show (MExp.tok x i).depth + 2 + m = (i.depth + 2 + m) + 1 by simp only [MExp.depth]; omega]
+      have h1 := hri m
+      have e2 : i.depth + 2 + m = (i.depth + 1 + m) + 1 := by omega
+      simp only [applyArgs, applyArgsL, reduceF, mapMO, h1, ok_bind, pure_eq_ok]
+      rw [e2]
+      simp only [reduceF, ok_bind]
+  | .any ph nh i, h, _, hf, k => by
+    obtain ⟨hfi, pb, nb, hpb, hnb, hpne⟩ := hf
+    have hl' : ctx.enterDatum.lvl ≠ 0 := by simpa [Ctx.enterDatum] using hl
+    obtain ⟨ti, hli, hri⟩ := lower_int s σ ints ctx.enterDatum hl' i h hfi (k + 1)
+    have hin : Inert ti := lower_int_inert s σ ints i h _ _ _ hli
+    refine ⟨.node .assets [.leaf (.bytes pb), .leaf (.bytes nb), ti], ?_, Inert_assets3 (Inert_leaf _) (Inert_leaf _) hin, ?_⟩
+    · rw [show (MExp.any ph nh i).depth + 2 + k = (i.depth + 1 + (k + 1)) + 1 by simp only [MExp.depth]; omega, MExp.toL, lowerE]
+      have e3 : i.depth + 1 + (k + 1) = (i.depth + 1 + k) + 1 := by omega
+      have hp : lowerE s (i.depth + 1 + (k + 1)) ctx.enterDatum (.leaf (.hex ph)) = .ok (.leaf (.bytes pb)) := by
+        rw [e3, lowerE]; simp [hpb]
+      have hn : lowerE s (i.depth + 1 + (k + 1)) ctx.enterDatum (.leaf (.hex nh)) = .ok (.leaf (.bytes nb)) := by
+        rw [e3, lowerE]; simp [hnb]
+      simp only [hp, hn, hli, ok_bind]
+    · intro m
+      have hd := single_entry (.leaf (.bytes pb)) (.leaf (.bytes nb)) ⟨_, rfl⟩ ⟨_, rfl⟩ (i.den ints) (fits_small ints i hfi)
+      rw [entryClass_defined hpne] at hd
+      have hcl : anyCls ph nh = .defined pb nb := by simp [anyCls, hpb, hnb]
+      refine ⟨.node .assets [.leaf (.bytes pb), .leaf (.bytes nb), .leaf (.number (i.den ints))], ?_,
+        by simpa only [MExp.den, hcl] using hd, RForm.tok _ _ _ hpne⟩
+      rw [show (MExp.any ph nh i).depth + 2 + m = (i.depth + 2 + m) + 1 by simp only [MExp.depth]; omega]
       have h1 := hri m
       have e2 : i.depth + 2 + m = (i.depth + 1 + m) + 1 := by omega
       simp only [applyArgs, applyArgsL, reduceF, mapMO, h1, ok_bind, pure_eq_ok]
@@ -159,15 +206,15 @@ theorem lower_multi (s : Scope) (σ : ArgMap) (ints : String → Int) (cls : Str
       rw [show a.depth + 2 + (max a.depth b.depth - a.depth + k) = b.depth + 2 + (max a.depth b.depth - b.depth + k) by omega]
       simp only [hlb, ok_bind]
     · intro m
-      obtain ⟨ra, h1, ⟨ca, va, hva, hama⟩⟩ := hra (max a.depth b.depth - a.depth + m)
-      obtain ⟨rb, h2, ⟨cb, vb, hvb, hamb⟩⟩ := hrb (max a.depth b.depth - b.depth + m)
+      obtain ⟨ra, h1, ⟨ca, va, hva, hama⟩, _⟩ := hra (max a.depth b.depth - a.depth + m)
+      obtain ⟨rb, h2, ⟨cb, vb, hvb, hamb⟩, _⟩ := hrb (max a.depth b.depth - b.depth + m)
       rw [show a.depth + 2 + (max a.depth b.depth - a.depth + m) = max a.depth b.depth + 2 + m by omega] at h1
       rw [show b.depth + 2 + (max a.depth b.depth - b.depth + m) = max a.depth b.depth + 2 + m by omega] at h2
       rw [show (MExp.add a b).depth + 2 + m = (max a.depth b.depth + 2 + m) + 1 by simp only [MExp.depth]; omega]
       have hfit : ∀ k', inI128 (amt va k' + amt vb k') = true := fun k' => by
         rw [hama k', hamb k']; exact small_i128 (hf.2.2 k')
       have hok := arithAdd_ok hva hvb hfit
-      refine ⟨assetsNode (retainNZ (addRaw va vb)), ?_, isConstant_assetsNode _, ?_⟩
+      refine ⟨assetsNode (retainNZ (addRaw va vb)), ?_, ⟨isConstant_assetsNode _, ?_⟩, RForm_add hva hvb hfit⟩
       · simp only [builtin, applyArgs, applyArgsL]
         rw [reduce_binary_const _ .add (by decide) _ _ ra rb h1 h2 ca cb]
         simp only [reduceBuiltin, hok]
@@ -185,8 +232,8 @@ theorem lower_multi (s : Scope) (σ : ArgMap) (ints : String → Int) (cls : Str
       rw [show a.depth + 2 + (max a.depth b.depth - a.depth + k) = b.depth + 2 + (max a.depth b.depth - b.depth + k) by omega]
       simp only [hlb, ok_bind]
     · intro m
-      obtain ⟨ra, h1, ⟨ca, va, hva, hama⟩⟩ := hra (max a.depth b.depth - a.depth + m)
-      obtain ⟨rb, h2, ⟨cb, vb, hvb, hamb⟩⟩ := hrb (max a.depth b.depth - b.depth + m)
+      obtain ⟨ra, h1, ⟨ca, va, hva, hama⟩, _⟩ := hra (max a.depth b.depth - a.depth + m)
+      obtain ⟨rb, h2, ⟨cb, vb, hvb, hamb⟩, _⟩ := hrb (max a.depth b.depth - b.depth + m)
       rw [show a.depth + 2 + (max a.depth b.depth - a.depth + m) = max a.depth b.depth + 2 + m by omega] at h1
       rw [show b.depth + 2 + (max a.depth b.depth - b.depth + m) = max a.depth b.depth + 2 + m by omega] at h2
       rw [show (MExp.sub a b).depth + 2 + m = (max a.depth b.depth + 2 + m) + 1 by simp only [MExp.depth]; omega]
@@ -205,7 +252,8 @@ theorem lower_multi (s : Scope) (σ : ArgMap) (ints : String → Int) (cls : Str
         unfold arithSub
         simp only [hnegok, ok_bind, haddok]
       obtain ⟨c, hc, hamt⟩ := C01_assets_sub hva hvb hok
-      refine ⟨_, ?_, isConstant_assetsNode _, c, hc, fun k' => ?_⟩
+      refine ⟨_, ?_, ⟨isConstant_assetsNode _, c, hc, fun k' => ?_⟩, RForm_add hva hnb (fun k' => by
+        rw [hnamt k']; have := hsub k'; rwa [Int.sub_eq_add_neg] at this)⟩
       · simp only [builtin, applyArgs, applyArgsL]
         rw [reduce_binary_const _ .sub (by decide) _ _ _ rb h1 h2 ca cb]
         simp only [reduceBuiltin, hok]
@@ -218,7 +266,7 @@ theorem C01_multi_asset_fragment (s : Scope) (σ : ArgMap) (ints : String → In
     ∃ t r, lowerE s (e.depth + 2 + k) ctx e.toL = .ok t ∧
       reduceF (e.depth + 2 + m) (applyArgs σ t) = .ok r ∧ Denotes r (e.den ints cls) := by
   obtain ⟨t, h1, _, h2⟩ := lower_multi s σ ints cls ctx hl hA e hs ht hf k
-  obtain ⟨r, h3, h4⟩ := h2 m
+  obtain ⟨r, h3, h4, _⟩ := h2 m
   exact ⟨t, r, h1, h3, h4⟩
 
 /-- No re-association, class by class. -/
@@ -241,7 +289,7 @@ example : AdaBuiltin { prog := maProg, tx := maTx } := by
   · simp [maProg]
 
 example : TokOf { prog := maProg, tx := maTx } maCls "Tok" := by
-  refine ⟨by decide, by decide, by decide, by decide, by decide, "ab", "cd", [0xab], [0xcd], ?_, ?_, ?_, rfl⟩
+  refine ⟨by decide, by decide, by decide, by decide, by decide, "ab", "cd", [0xab], [0xcd], ?_, ?_, ?_, rfl, by simp⟩
   · simp [resolve, resolveOuter, indexOfOutput, indexOfOutput.go, lastWith, maProg, maTx]
   · simp [hexDecode, hexDecodeChars, hexVal]
   · simp [hexDecode, hexDecodeChars, hexVal]
@@ -250,5 +298,11 @@ example : TokOf { prog := maProg, tx := maTx } maCls "Tok" := by
 example : (MExp.add (MExp.sub (MExp.tok "Tok" (.num 5)) (MExp.tok "Tok" (.num 2))) (MExp.ada (.num 7))).den
     (fun _ => 0) maCls (maCls "Tok") = 3 := by
   simp [MExp.den, IExp.den, maCls, entryClass, nameExprOf, constPolicy, constName, fromAsset, fromDefinedAsset, AssetClass.naked]
+
+/-- `AnyAsset(0xab, 0xcd, q)`: the literals are hex, the policy is not empty. -/
+example : (MExp.any "ab" "cd" (.par "q")).Fits (fun _ => 7) maCls := by
+  refine ⟨by simp [IExp.Fits, IExp.Small], [0xab], [0xcd], ?_, ?_, by simp⟩
+  · simp [hexDecode, hexDecodeChars, hexVal]
+  · simp [hexDecode, hexDecodeChars, hexVal]
 
 end Tx3.Lang
